@@ -296,6 +296,10 @@ func (e *engine) scenReplay(sp Spec) (o outcome) {
 		w.calib = rc.recordEnds()
 	}
 	w.observeQuirks(e.c, res.replay)
+	if w.removeFailed > 0 {
+		e.c.Observe("quirk:listener-remove-failed-but-announced(not judged)", int64(w.removeFailed))
+		w.removeFailed = 0
+	}
 	if err := w.leave(res); err != nil {
 		syncFailure(&o, err, w)
 	}
